@@ -252,7 +252,7 @@ PROPS = {
         'gen_sections': HANDLER_SECTIONS + ['Consts', 'Dec/retryCondition', 'Dec/nextRetryValue', 'pkg/handler/error.go'],
         'drivers': [{'name': 'cook'}],
         'reasons': ['C17.'],
-        'class_fields': {'setcookie': ['op', 'class', 'clear'], 'jar': ['after'], 'retrychain': ['cause', 'statuses', 'sso'], 'retryreset': ['via', 'before', 'after'],
+        'class_fields': {'setcookie': ['op', 'class', 'clear'], 'jar': ['after'], 'retrychain': ['cause', 'statuses', 'sso', 'gap'], 'retryreset': ['via', 'before', 'after'],
                          'ratelimit': ['enabled', 'logins', 'windowms', 'session', 'statuses', 'afterwindow', 'maxage']},
         'nontrivial': {'setcookie': lambda f: False, 'jar': lambda f: False, 'cookieval14': lambda f: False},
         'rule': "cook driver: a cookie-keeping browser is sent round the failing loop (callback without cookie, bad state, provider 5xx, provider 4xx, logout on an unconfigured host) 7 times per cause and configuration; "
